@@ -361,8 +361,12 @@ def main() -> int:
                 "Lean 4.33 kernel; Mathlib v4.33 as compiled in /opt/veriftools/mathlib4",
                 "axioms ⊆ {propext, Classical.choice, Quot.sound} (audited per theorem, this run)",
                 "harness/translate.py (T1) and the correspondence harness incl. 1e-9 numeric slack (T2)",
-            ],
+            ] + (["harness/translate_code.py (T1c): mechanical Python-AST -> Lean translation of the tied numeric kernels "
+                  "(Acn.CodeTie.* prove translated = hand model for every input); Python's ZeroDivisionError and "
+                  "NaN/inf comparison semantics are not translated"]
+                 if any(t.startswith("Acn.CodeTie.") for t in theorems) else []),
             "theorems": theorems,
+            "code_tie_theorems": [t for t in theorems if t.startswith("Acn.CodeTie.")],
             "axioms_used": sorted({a for v in axioms.values() for a in v}),
             "forbidden_token_hits": forbidden,
             "leanchecker_rechecked": rechecked,
